@@ -41,6 +41,8 @@ func applyKnownSwitches(cfg *gen.BundleCfg) {
 				cfg.NoSharedSchemaPtrs = true
 			case s == "KeepNamesPlainOnly":
 				cfg.KeepNamesPlainOnly = true
+			case s == "NoPunctOnlyLocalNames":
+				cfg.NoPunctOnlyLocalNames = true
 			case s == "NoOAIGenNamedAliases":
 				cfg.NoOAIGenNamedAliases = true
 			}
@@ -76,16 +78,27 @@ func init() {
 		}
 		return strings.Contains(fail, "OAIGen")
 	}
-	// Full flattening with imported definitions that collide by name: the conflict definitions (OAIGen)
-	// are merged back into their referers from a list of referers computed before the merging starts;
-	// when naming inline schemas has moved a referer, or one conflict definition refers to another,
-	// a $ref to an already deleted OAIGen definition survives and Flatten fails on it.
-	Classifiers["full-oaigen-dedupe-dangling"] = func(prop string, c interface{}, fail string) bool {
+	// Minimal / full flattening with imported definitions that collide by name: the conflict definitions
+	// (OAIGen) are merged back into their referers from bookkeeping (referer lists, schema copies) taken
+	// before the merging starts; when a referer has moved, or one conflict definition refers to another,
+	// a $ref to an already deleted OAIGen definition survives and Flatten fails on it (map-order dependent).
+	Classifiers["oaigen-dedupe-dangling"] = func(prop string, c interface{}, fail string) bool {
 		fc, ok := c.(*gen.FlattenCase)
-		if !ok || fc.Opts.Minimal || fc.Opts.Expand || !hasImportCollision(fc) {
+		if !ok || fc.Opts.Expand || !hasImportCollision(fc) {
 			return false
 		}
 		return oaigenDangling.MatchString(fail)
+	}
+	// A property (or root definition) whose name is punctuation only ("~", "?", "{}") mangles to the empty
+	// string: the name built for a schema below it equals the name of its parent definition, it is created
+	// as "<parent>OAIGen", merged back into the parent by the de-duplication step, re-introduced as an
+	// anonymous pointer, named again ... until a stale key makes Flatten fail.
+	Classifiers["empty-mangled-local-name"] = func(prop string, c interface{}, fail string) bool {
+		fc, ok := c.(*gen.FlattenCase)
+		if !ok || !hasPunctOnlyLocalName(fc) {
+			return false
+		}
+		return strings.Contains(fail, "OAIGen") || strings.Contains(fail, "oaiGen") || strings.Contains(fail, "JSON pointer error")
 	}
 	// spec.ExpandSpec itself (go-openapi/spec, outside this repository) fails on the bundle: a remote
 	// reference cycle reached from documents in two different directories is rebased twice.
@@ -132,6 +145,34 @@ func hasImportCollision(c *gen.FlattenCase) bool {
 		}
 	}
 	return false
+}
+
+// hasPunctOnlyLocalName: a property name anywhere, or a root definition name, mangles to "".
+func hasPunctOnlyLocalName(c *gen.FlattenCase) bool {
+	found := false
+	for _, n := range SortedKeys(Obj(c.Root["definitions"])) {
+		found = found || gen.CollisionBase(n, true) == ""
+	}
+	var walk func(v J, inProps bool)
+	walk = func(v J, inProps bool) {
+		switch x := v.(type) {
+		case map[string]interface{}:
+			for k, e := range x {
+				if inProps && gen.CollisionBase(k, true) == "" {
+					found = true
+				}
+				walk(e, k == "properties" && !inProps)
+			}
+		case []interface{}:
+			for _, e := range x {
+				walk(e, false)
+			}
+		}
+	}
+	for _, d := range c.Docs() {
+		walk(d, false)
+	}
+	return found
 }
 
 func inputHasOAIGenName(c *gen.FlattenCase) bool {
